@@ -175,31 +175,48 @@ func runC08(c *Ctx) {
 		// loop over exactly the collected slots
 		fd := p.FuncDecl(pkg, "BatchCollector", "Commit")
 		okLoop := false
-		ast.Inspect(fd.Body, func(n ast.Node) bool {
-			if rs, ok := n.(*ast.RangeStmt); ok && fieldSel(info, rs.X, "writtenValuesCounter") {
-				ast.Inspect(rs.Body, func(m ast.Node) bool {
+		// any loop form whose bound is the counter: range over the counter / counted for with an
+		// indexed slot, or range over writtenValues[:counter] with the element as receiver
+		for _, l := range f.Loops() {
+			for _, d := range dones {
+				if !f.InLoopBody(l, d) {
+					continue
+				}
+				var recv ast.Expr
+				inspectNoLit(f.nodeAt(d), func(m ast.Node) bool {
 					if c, ok := m.(*ast.CallExpr); ok {
 						if se, ok := ast.Unparen(c.Fun).(*ast.SelectorExpr); ok && se.Sel.Name == "BatchWriteDone" {
-							if ix, ok := ast.Unparen(se.X).(*ast.IndexExpr); ok && fieldSel(info, ix.X, "writtenValues") && rs.Key != nil && exprKey(ix.Index) == exprKey(rs.Key) {
-								okLoop = true
-							}
+							recv = se.X
 						}
 					}
 					return true
 				})
-			}
-			if fs, ok := n.(*ast.ForStmt); ok && fs.Cond != nil && strings.Contains(exprKey(fs.Cond), ".writtenValuesCounter") {
-				ast.Inspect(fs.Body, func(m ast.Node) bool {
-					if c, ok := m.(*ast.CallExpr); ok {
-						if se, ok := ast.Unparen(c.Fun).(*ast.SelectorExpr); ok && se.Sel.Name == "BatchWriteDone" {
+				if recv == nil {
+					continue
+				}
+				switch st := l.Stmt.(type) {
+				case *ast.RangeStmt:
+					xk := rawKey(st.X)
+					if strings.HasSuffix(xk, ".writtenValuesCounter") {
+						if ix, ok := ast.Unparen(recv).(*ast.IndexExpr); ok && fieldSel(info, ix.X, "writtenValues") && st.Key != nil && rawKey(ix.Index) == rawKey(st.Key) {
 							okLoop = true
 						}
 					}
-					return true
-				})
+					if sl, ok := ast.Unparen(st.X).(*ast.SliceExpr); ok && fieldSel(info, sl.X, "writtenValues") && sl.Low == nil && sl.High != nil && strings.HasSuffix(rawKey(sl.High), ".writtenValuesCounter") {
+						if st.Value != nil && objOfIdent(info, recv) != nil && objOfIdent(info, recv) == objOfIdent(info, st.Value) {
+							okLoop = true
+						}
+					}
+				case *ast.ForStmt:
+					if st.Cond != nil && strings.Contains(rawKey(st.Cond), ".writtenValuesCounter") {
+						if ix, ok := ast.Unparen(recv).(*ast.IndexExpr); ok && fieldSel(info, ix.X, "writtenValues") {
+							okLoop = true
+						}
+					}
+				}
 			}
-			return true
-		})
+		}
+		_ = fd
 		if okLoop {
 			r.Pass("collector/done-once-per-slot", key, p.posStr(fd.Pos()), "BatchWriteDone is called for slots 0..writtenValuesCounter-1")
 		} else {
@@ -306,8 +323,56 @@ func checkCollectorTypestate(r *Reporter, p *Prog) {
 		return
 	}
 	info := p.Pkg(pkg).TypesInfo
-	// locate the collector variable, the flush flag and the local closure
+	// a call creates a collector if it is newBatchCollector or a same-package helper that
+	// (transitively, bounded) returns one
+	var creates func(c *ast.CallExpr) bool
+	{
+		seen := map[*ast.FuncDecl]bool{}
+		var bodyCreates func(fd *ast.FuncDecl, depth int) bool
+		bodyCreates = func(fd *ast.FuncDecl, depth int) bool {
+			if fd == nil || fd.Body == nil || depth > 3 || seen[fd] {
+				return false
+			}
+			seen[fd] = true
+			defer delete(seen, fd)
+			found := false
+			ast.Inspect(fd.Body, func(n ast.Node) bool {
+				if rs, ok := n.(*ast.ReturnStmt); ok && len(rs.Results) >= 1 {
+					if c, ok := ast.Unparen(rs.Results[0]).(*ast.CallExpr); ok && creates(c) {
+						found = true
+					}
+				}
+				return !found
+			})
+			return found
+		}
+		creates = func(c *ast.CallExpr) bool {
+			if rawKey(c.Fun) == "newBatchCollector" {
+				return true
+			}
+			if fn := staticCallee(info, c); fn != nil {
+				return bodyCreates(p.decls().byFunc[fn.Origin()], 1)
+			}
+			return false
+		}
+	}
+	var active *Typestate
+	// isCollector: the expression denotes the tracked collector variable, directly or as the
+	// parameter of an expanded helper it was passed to
 	var collector, flag, closureVar interface{}
+	isCollector := func(e ast.Expr) bool {
+		if o := objOfIdent(info, e); o != nil && o == collector {
+			return true
+		}
+		if active != nil {
+			if re, _ := active.F.Resolve(e, active.Cur); re != nil {
+				if o := objOfIdent(info, re); o != nil && o == collector {
+					return true
+				}
+			}
+		}
+		return false
+	}
 	var closure *ast.FuncLit
 	ast.Inspect(fd.Body, func(n ast.Node) bool {
 		as, ok := n.(*ast.AssignStmt)
@@ -316,7 +381,7 @@ func checkCollectorTypestate(r *Reporter, p *Prog) {
 		}
 		switch rhs := ast.Unparen(as.Rhs[0]).(type) {
 		case *ast.CallExpr:
-			if exprKey(rhs.Fun) == "newBatchCollector" && collector == nil {
+			if creates(rhs) && collector == nil {
 				collector = objOfIdent(info, as.Lhs[0])
 			}
 		case *ast.Ident:
@@ -360,7 +425,7 @@ func checkCollectorTypestate(r *Reporter, p *Prog) {
 					return true
 				}
 				se, ok := ast.Unparen(x.Fun).(*ast.SelectorExpr)
-				if !ok || objOfIdent(info, se.X) != collector {
+				if !ok || !isCollector(se.X) {
 					return true
 				}
 				var out []string
@@ -398,7 +463,7 @@ func checkCollectorTypestate(r *Reporter, p *Prog) {
 				c2, f2 := split(st)
 				switch {
 				case lhs != nil && lhs == collector:
-					if ce, ok := ast.Unparen(as.Rhs[0]).(*ast.CallExpr); ok && exprKey(ce.Fun) == "newBatchCollector" {
+					if ce, ok := ast.Unparen(as.Rhs[0]).(*ast.CallExpr); ok && creates(ce) {
 						if c2 == "fresh" {
 							return nil, "a collector that was never committed is replaced: everything added to it is lost"
 						}
@@ -443,6 +508,7 @@ func checkCollectorTypestate(r *Reporter, p *Prog) {
 		for _, cs := range []string{"none", "fresh", "committed"} {
 			for _, fl := range []string{"F", "T"} {
 				ts := &Typestate{F: cf, Transfer: transfer, Filter: filter}
+				active = ts
 				exits, viols := ts.Run([]string{cs + "/" + fl})
 				if cs == "fresh" {
 					allViol = append(allViol, viols...)
@@ -465,6 +531,7 @@ func checkCollectorTypestate(r *Reporter, p *Prog) {
 		}
 		return ""
 	}}
+	active = ts
 	exits, viols := ts.Run([]string{"none/F"})
 	allViol = append(allViol, viols...)
 	nStates += len(exits)
